@@ -93,7 +93,15 @@ def gen_stagevars_doc(rng, safe=False):
             c = {'name': '%s%d%s' % (rng.choice(['gen', 'run', 'post', 'sim', 'prep']), s, 'ab'[j]), 'stage': s,
                  'command': {'executable': 'echo', 'arguments': ' '.join('%%(%s)s' % d for d in used)},
                  'references': []}
-            if safe and rng.random() < 0.25:     # (resolved by a later loop of instance(), which raises when it cannot)
+            if safe and j == 1 and rng.random() < 0.4:
+                # siblings of one stage: the first overrides a pool variable for itself, the second builds a variable of
+                # its own on that pool variable and has to see the stage / global value (whichever sibling is resolved
+                # first: the order of the components follows the hash seed)
+                v = rng.choice(sorted(gl))
+                comps[-1].setdefault('variables', {})[v] = '/c-%s%d%s' % (v, s, 'a')
+                c['variables'] = {'cw': '%%(%s)s/comp' % v}
+                c['command']['arguments'] += ' %(cw)s'
+            elif safe and rng.random() < 0.25:     # (resolved by a later loop of instance(), which raises when it cannot)
                 # a component variable on top of a stage variable or of a pool variable which a SIBLING may override
                 c['variables'] = {'cw': '%%(%s)s/comp' % rng.choice([used[0], rng.choice(sorted(gl))])}
                 c['command']['arguments'] += ' %(cw)s'
